@@ -51,13 +51,18 @@ def model_check(rep, name, c, timeout=3400):
     return r
 
 
-def generate(rep, name, c, timeout=3400, keep=None):
+def generate(rep, name, c, timeout=3400, keep=None, workers=1):
+    """workers=1: deterministic and complete for the bound (thorough tier); workers>1: several times faster, but TLC's
+    parallel search is not strictly breadth-first, so a few source states near the bound may be logged one level late
+    (quick tier; every logged transition is still a genuine transition of the model)"""
     cfg = tlc.write_cfg(GEN_CFG, c)
     try:
-        r = tlc.run_tlc("MC_FimTopology", cfg, workers=1, timeout=timeout)
+        r = tlc.run_tlc("MC_FimTopology", cfg, workers=workers, timeout=timeout)
     finally:
         os.unlink(cfg)
-    printed = r.printed
+    import json as _json
+    printed = sorted((p for p in r.printed if isinstance(p, dict) and "op" in p),
+                     key=lambda p: (len(p["path"]), _json.dumps(p, sort_keys=True)))
     if keep is not None:
         printed = [p for p in printed if isinstance(p, dict) and "op" in p and keep(p)]
     scripts, ntrans, nstates = pipeline.scripts_from_gen(printed, max_obs_per_script=250)
